@@ -4,11 +4,15 @@
   The driver rejects what it cannot decode; it never substitutes defaults for data.
 -/
 import RpyModel.Drv.C01
+import RpyModel.Drv.C17
 open Lean
 
 def dispatch (R : Type) [Num R] (kind : String) (j : Json) : Except String Json :=
   match kind with
   | "reservoir_run" => Drv.handleReservoirRun R j
+  | "nvar_run" => Drv.handleNvarRun R j
+  | "delay_run" => Drv.handleDelayRun R j
+  | "concat" => Drv.handleConcat R j
   | _ => throw s!"unknown kind {kind}"
 
 def handle (line : String) : String :=
